@@ -769,8 +769,17 @@ func rulesG5Lines(c *Ctx, r *Report) {
 		r.holds("G5", "formats/fastq", "Scanner.Split never called", "", "the fastq scanner keeps bufio.ScanLines, which ends lines at LF and strips one trailing CR")
 	}
 	// (c) sam, bed: ReadString('\n') lines are stripped of exactly "\n" then "\r" before any other use
+	n := rulesLineChain(c, r, "formats/sam") + rulesLineChain(c, r, "formats/bed")
+	r.floor("G5-lines", n, 2, "ReadString line readers (sam.ReaderHeader, bed.read)")
+}
+
+// rulesLineChain: the ReadString('\n') line readers of one package.
+func rulesLineChain(c *Ctx, r *Report, rel string) int {
 	nChains := 0
 	for _, f := range formatFuncs(c) {
+		if funcPkgPath(f) != modPath+"/"+rel {
+			continue
+		}
 		instrs(f, func(in ssa.Instruction) {
 			call, ok := in.(*ssa.Call)
 			if !ok || !methIs(call.Call.StaticCallee(), "bufio", "Reader", "ReadString") {
@@ -799,7 +808,7 @@ func rulesG5Lines(c *Ctx, r *Report) {
 				why)
 		})
 	}
-	r.floor("G5-lines", nChains, 2, "ReadString line readers (sam.ReaderHeader, bed.read)")
+	return nChains
 }
 
 // trimChainOK: text's only use is strings.TrimSuffix(text, "\n"), whose only use is TrimSuffix(_, "\r")
